@@ -13,6 +13,7 @@ var Registry = map[string]func(seed int64) *engine.Check{
 	"C07": func(int64) *engine.Check { return C07() },
 	"C16": func(int64) *engine.Check { return C16() },
 	"C08": func(int64) *engine.Check { return C08() },
+	"C09": func(int64) *engine.Check { return C09() },
 	"C10": func(int64) *engine.Check { return C10() },
 	"C11": func(int64) *engine.Check { return C11() },
 	"C12": func(int64) *engine.Check { return C12() },
@@ -20,9 +21,10 @@ var Registry = map[string]func(seed int64) *engine.Check{
 	"C14": func(int64) *engine.Check { return C14() },
 	"C17": func(int64) *engine.Check { return C17() },
 	"C18": func(int64) *engine.Check { return C18() },
+	"C20": func(int64) *engine.Check { return C20() },
 	"C19": func(int64) *engine.Check { return C19() },
 	"C15": func(int64) *engine.Check { return C15() },
 }
 
 // WorkerMain is the entry point of the crash-isolated worker (C09, E5).
-func WorkerMain(args []string) int { return 2 }
+func WorkerMain(args []string) int { return workerMain(args) }
